@@ -497,6 +497,29 @@ def run(pid, tier, spec):
                                 reason=("the real macro deviates from the specification on a real program: " if all_hold else "interpreter and real macro disagree on a witness while obligations do not all hold: ") + dis[0][:300],
                                 what="witnesses of explored MIR paths compiled and run as real programs", queries=len(cases), paths=len(cases), functions=[], task=dict(kind="witness"),
                                 replay_path=path, native={"disagreements": dis}, n_violated=len(dis), samples=[], wall_s=time.time() - t1, bounds="", assumes=[]))
+    # C16: twin corpus — real decorated programs vs their erased twins through the real macros and rustc
+    if pid == "C16":
+        from .mirsym import progs
+        tdir = os.path.join(os.path.dirname(os.path.abspath(__file__)), "mirsym", "twins")
+        for fn in sorted(os.listdir(tdir)):
+            if not fn.endswith(".rs"):
+                continue
+            t1 = time.time()
+            status, detail = progs.twin_pair(fn[:-3], os.path.join(tdir, fn))
+            r = dict(name="twin program %s" % fn, verdict="holds" if status == "agree" else ("inconclusive" if status == "infrastructure" else "violation"),
+                     reason="" if status == "agree" else detail, queries=1, paths=1, functions=[], samples=[{"twin": fn, "observed": detail[:200]}],
+                     what="a real program whose declaration / queries carry several distinct cfg predicates with mixed truth values (several attributes per item, repeated predicate texts) behaves exactly like its erased twin (program-level metamorphic test through the real __cfg_ecs_* chain and rustc — the half of C16 no solver can reach)",
+                     bounds="enumeration of twin programs (auxiliary, not a solver task)", validated_against_impl=1 if status == "agree" else 0,
+                     task=dict(kind="witness"), assumes=[], wall_s=time.time() - t1, solver_s=0.0)
+            if r["verdict"] == "violation":
+                os.makedirs(common.REPLAY_DIR, exist_ok=True)
+                path = os.path.join(common.REPLAY_DIR, "C16_twin_%s.json" % common.sha(fn + detail))
+                with open(path, "w") as f:
+                    json.dump({"kind": "e2", "property": "C16", "task": {"kind": "twin", "file": os.path.join(tdir, fn)}, "obligation": detail,
+                               "how_to_replay": "/verif/check C16 --tier quick (rebuilds the twin programs)"}, f, indent=1)
+                r["replay_path"] = path
+            common.log("%-12s %-48s %5.0fs %s" % (r["verdict"], r["name"], r["wall_s"], r["reason"][:150]))
+            results.append(r)
     # C05: negative corpus — programs every query macro must reject at compile time
     if pid == "C05":
         from .mirsym import progs
